@@ -393,6 +393,14 @@ def d7(cx: Cx, ob: Ob) -> None:
                 b = curie_of(x)
                 cols.append(b[2] if op(b) == "attr" else None)
     if cols is None:
+        for c in rows:
+            a = c[2][0] if c[2] else None
+            if op(a) in ("tuple", "list") and len(a[1]) == 3:
+                cols = []
+                for x in a[1]:
+                    b = curie_of(x)
+                    cols.append(b[2] if op(b) == "attr" else None)
+    if cols is None:
         ob.undecide("row construction of write_triples not recognised")
     elif cols != order:
         ob.violate(w.qualname, w.where, f"write_triples writes columns {cols}; expected {order} (as CURIEs)", detail="write-columns")
@@ -419,6 +427,31 @@ def d7(cx: Cx, ob: Ob) -> None:
                         ob.violate(r.qualname, r.where, f"read_triples does not parse `{name}` with from_curie", detail=f"parse:{name}")
             if a[3][0][2]:
                 ob.violate(r.qualname, r.where, "read_triples filters rows", detail="filter")
+    if got is None:
+        # loop form: rows appended as Triple.from_curies(s, p, o, ...) / Triple(subject=..., ...)
+        for c, ev, ctx in rs.calls():
+            if not ctx.loops or op(ctx.loops[-1].a) != "tuple" or len(ctx.loops[-1].a[1]) != 3:
+                continue
+            tg = ctx.loops[-1].a[1]
+            if op(c[1]) == "attr" and c[1][2] == "from_curies" and len(c[2]) == 3:
+                got = [tg.index(a) if a in tg else None for a in c[2]]
+                fc = cx.model.functions.get(f"{T}.Triple.from_curies")
+                if fc is not None:
+                    fs = cx.summary(fc, ob.id)
+                    for t2, _ in fs.returns():
+                        kw2 = dict(t2[3]) if op(t2) == "call" else {}
+                        names = [p.name for p in fc.params[1:4]]
+                        for nm, pn in zip(order, names):
+                            v = kw2.get(nm)
+                            if not (op(v) == "call" and callee_name(v) == "from_curie" and v[2][:1] == (("param", pn),)):
+                                ob.violate(fc.qualname, fc.where, f"Triple.from_curies does not build `{nm}` from its `{pn}` argument", detail=f"from-curies:{nm}")
+            elif op(c[1]) == "cls" and c[1][1].endswith(".Triple"):
+                kw = dict(c[3])
+                got = []
+                for name in order:
+                    v = kw.get(name)
+                    arg = v[2][0] if op(v) == "call" and callee_name(v) == "from_curie" and v[2] else None
+                    got.append(tg.index(arg) if arg in tg else None)
     if got is None:
         ob.undecide("row parsing of read_triples not recognised")
     elif got != [0, 1, 2]:
